@@ -133,6 +133,8 @@ func runC10(c *Ctx, r *Report) {
 	checkPatternsCompile(c, r, "C10/patterns-compile", nil)
 	importFoundation(c, r, "C10", "transport-pipe")
 	importFoundation(c, r, "C10", "read-loop")
+	importFoundation(c, r, "C10", "telnet-negotiation")
+	importFoundation(c, r, "C10", "driver-options")
 	importFoundation(c, r, "C10", "queue")
 	importFoundation(c, r, "C10", "send-input")
 	r.Rule("C10/ansi-bounded", "what the read loop strips cannot span the login prompt: no unbounded repetition of the escape-sequence pattern admits ESC or newline", 1)
